@@ -5,57 +5,158 @@ from proto import run_driver, fbits, unbits
 
 ASSUMPTIONS = ["values (conditions, model, mean, positions) are abstracted to identifiers in the cache model; the tie compares, call by call, "
                "whether the real output equals the output of a freshly built object with the model's prediction",
-               "nugget-free models in the history correspondence (nugget noise history is C11's subject)"]
+               "nugget-free models in the history correspondence (nugget noise history is C11's subject)",
+               "custom field names given to store= / krige_store= are distinct from the names of the other slots of the same object "
+               "(the model keeps one name space per role: raw_krige slot of CondSRF, krige_var slot of Krige)",
+               "positions are changed through calls and set_pos of either object, not by assigning the pos / mesh_type attributes"]
 
 SEED = 20240917
+RAW_NAMES = ["raw_krige", "rk1"]     # names of the third CondSRF slot: model name ids 0, 1
+VAR_NAMES = ["krige_var", "kv1"]     # names of the second Krige slot
 
 
-def concrete(rng):
+def concrete(rng, dim=None, variant=None):
     """concrete values behind the abstract identifiers"""
-    dim = int(rng.randint(1, 3))
-    n = int(rng.randint(3, 7))
+    dim = int(rng.randint(1, 4)) if dim is None else dim
+    v = str(rng.choice(["Simple", "Ordinary", "Universal"]))
+    variant = v if variant is None else variant
+    n = int(rng.randint(3, 7)) + (dim + 1 if variant == "Universal" else 0)   # linear drift: keep the system regular
     cp = rng.uniform(0, 10, size=(dim, n))
     base = rng.randn(n)
     conds = [base + 0.75 * k * np.cos(np.arange(n) + k) for k in range(4)]
     lens = [3.0, 4.5, 7.0, 2.0]      # all supports overlap the 10-wide domain: distinct identifiers stay visibly distinct
+    # model identifiers also differ in anisotropy / rotation for dim > 1 (edited in place by the 'model' operation)
+    anis = [1.0, 0.5, 1.0, 0.4]
+    angles = [0.0, 0.7, 1.2, 0.0]
     means = [0.0, 1.5, -2.0]
-    poss = [rng.uniform(0, 10, size=(dim, int(rng.randint(2, 7)))) for _ in range(3)]
+    n0 = int(rng.randint(2, 7))
+    # positions 0 and 1: same point count; 2, 3: independent counts
+    poss = [rng.uniform(0, 10, size=(dim, n0)), rng.uniform(0, 10, size=(dim, n0))] + \
+           [rng.uniform(0, 10, size=(dim, int(rng.randint(2, 7)))) for _ in range(2)]
     cls = str(rng.choice(["Gaussian", "Exponential", "Spherical"]))
-    variant = str(rng.choice(["Simple", "Ordinary"]))
-    return dict(dim=dim, cp=cp, conds=conds, lens=lens, means=means, poss=poss, cls=cls, variant=variant)
+    return dict(dim=dim, cp=cp, conds=conds, lens=lens, anis=anis, angles=angles, means=means, poss=poss, cls=cls,
+                variant=variant)
+
+
+NPOS = 4
+
+
+def set_model(model, cv, model_id):
+    """the in-place model edit behind a model identifier"""
+    model.len_scale = cv["lens"][model_id]
+    if cv["dim"] > 1:
+        model.anis = [cv["anis"][model_id]] * (cv["dim"] - 1)
+        model.angles = [cv["angles"][model_id]] * (1 if cv["dim"] == 2 else 3)
 
 
 def build(cv, cond, model_id, mean_id):
     import gstools as gs
-    model = getattr(gs, cv["cls"])(dim=cv["dim"], var=1.3, len_scale=cv["lens"][model_id])
+    kw = {}
+    if cv["dim"] > 1:
+        kw = dict(anis=[cv["anis"][model_id]] * (cv["dim"] - 1), angles=[cv["angles"][model_id]] * (1 if cv["dim"] == 2 else 3))
+    model = getattr(gs, cv["cls"])(dim=cv["dim"], var=1.3, len_scale=cv["lens"][model_id], **kw)
     if cv["variant"] == "Simple":
         kr = gs.krige.Simple(model, cv["cp"], cv["conds"][cond], mean=cv["means"][mean_id])
-    else:
+    elif cv["variant"] == "Ordinary":
         kr = gs.krige.Ordinary(model, cv["cp"], cv["conds"][cond], trend=cv["means"][mean_id])
+    else:
+        kr = gs.krige.Universal(model, cv["cp"], cv["conds"][cond], drift_functions="linear", trend=cv["means"][mean_id])
     return gs.CondSRF(kr, seed=SEED, mode_no=64)
+
+
+def gen_call(rng, with_pos=None):
+    """a CondSRF call with random store / krige_store options (defaults most of the time)"""
+    op = {"k": "call"}
+    if (rng.rand() < 0.6) if with_pos is None else with_pos:
+        op["pos"] = int(rng.randint(0, NPOS))
+    r = rng.rand()
+    if r < 0.55:
+        return op
+    if rng.rand() < 0.5:
+        op["store"] = False
+    elif rng.rand() < 0.4:
+        op["rn"] = 1
+    if rng.rand() < 0.35:
+        op["kstore"] = False
+    elif rng.rand() < 0.3:
+        op["vn"] = 1
+    if rng.rand() < 0.4:           # list forms: the other slots get their own flags
+        op["sx"] = [bool(rng.rand() < 0.5), bool(rng.rand() < 0.5)]
+    if rng.rand() < 0.4:
+        op["kx"] = bool(rng.rand() < 0.5)
+    return op
 
 
 def gen_history(rng, length):
     ops = []
     for _ in range(length):
         r = rng.rand()
-        if r < 0.40:
-            ops.append({"k": "call", "pos": int(rng.randint(0, 3))} if rng.rand() < 0.6 else {"k": "call"})
-        elif r < 0.50:
-            ops.append({"k": "set_pos", "pos": int(rng.randint(0, 3))})
-        elif r < 0.68:
+        if r < 0.34:
+            ops.append(gen_call(rng))
+        elif r < 0.46:
+            o = {"k": "krige_call"}
+            if rng.rand() < 0.6:
+                o["pos"] = int(rng.randint(0, NPOS))
+            q = rng.rand()
+            if q < 0.15:
+                o["store"] = False
+            elif q < 0.3:
+                o["vn"] = 1
+            ops.append(o)
+        elif r < 0.53:
+            ops.append({"k": "set_pos", "pos": int(rng.randint(0, NPOS))})
+        elif r < 0.59:
+            ops.append({"k": "krige_set_pos", "pos": int(rng.randint(0, NPOS))})
+        elif r < 0.73:
             ops.append({"k": "set_condition", "cond": int(rng.randint(0, 4))} if rng.rand() < 0.6 else {"k": "set_condition"})
-        elif r < 0.82:
+        elif r < 0.83:
             ops.append({"k": "model", "v": int(rng.randint(0, 4))})
-        elif r < 0.94:
+        elif r < 0.91:
             ops.append({"k": "mean", "v": int(rng.randint(0, 3))})
-        else:
+        elif r < 0.96:
             ops.append({"k": "delete"})
+        else:
+            ops.append({"k": "krige_delete"})
     return ops
 
 
+def kind(o):
+    """operation kind used in violation keys; operations with default options keep their plain name"""
+    k = o["k"]
+    if k == "call":
+        if not o.get("store", True):
+            k += "_nostore"
+        if o.get("rn", 0):
+            k += "_rn%d" % o["rn"]
+        if not o.get("kstore", True):
+            k += "_nokstore"
+        if o.get("vn", 0):
+            k += "_vn%d" % o["vn"]
+    elif k == "krige_call":
+        if not o.get("store", True):
+            k += "_nostore"
+        if o.get("vn", 0):
+            k += "_vn%d" % o["vn"]
+    return k
+
+
+def store_args(op):
+    """the store= / krige_store= arguments of CondSRF.__call__ behind a call operation"""
+    st, kst, rn, vn = op.get("store", True), op.get("kstore", True), op.get("rn", 0), op.get("vn", 0)
+    if rn == 0 and "sx" not in op:
+        store = st
+    else:
+        sx = op.get("sx", [st, st])
+        store = [sx[0], sx[1], RAW_NAMES[rn] if rn else st]
+    if vn == 0 and "kx" not in op:
+        kstore = kst
+    else:
+        kstore = [op.get("kx", kst), VAR_NAMES[vn] if vn else kst]
+    return store, kstore
+
+
 def run_real(cv, ops, c0, m0, mu0):
-    """returns per call: 'ValueError' or (equals_fresh: bool, max abs diff)"""
+    """returns per CondSRF call: 'ValueError' (no positions yet) or (equals_fresh: bool, max abs diff[, note])"""
     crf = build(cv, c0, m0, mu0)
     cond, model_id, mean_id, pos_id = c0, m0, mu0, None
     out = []
@@ -65,20 +166,47 @@ def run_real(cv, ops, c0, m0, mu0):
             k = op["k"]
             if k == "call":
                 p = op.get("pos", None)
+                store, kstore = store_args(op)
+                if p is not None:
+                    pos_id = p      # set_pos happens before anything can fail
                 try:
                     if p is None:
-                        res = crf(seed=SEED)
+                        res = crf(seed=SEED, store=store, krige_store=kstore)
                     else:
-                        res = crf(cv["poss"][p], seed=SEED)
-                        pos_id = p
-                except ValueError:
-                    out.append("ValueError")
+                        res = crf(cv["poss"][p], seed=SEED, store=store, krige_store=kstore)
+                except Exception as e:       # noqa
+                    if pos_id is None and isinstance(e, ValueError):
+                        out.append("ValueError")
+                    else:
+                        out.append((False, float("inf"), "raised " + type(e).__name__))
                     continue
                 fresh = build(cv, cond, model_id, mean_id)(cv["poss"][pos_id], seed=SEED)
+                if np.shape(res) != np.shape(fresh):
+                    out.append((False, float("inf"), "shape %s instead of %s" % (np.shape(res), np.shape(fresh))))
+                    continue
                 d = float(np.max(np.abs(res - fresh)))
                 out.append((bool(d <= 1e-9 * (1 + np.abs(fresh).max())), d))
+            elif k == "krige_call":
+                p = op.get("pos", None)
+                vn = op.get("vn", 0)
+                store = op.get("store", True)
+                if store and vn:
+                    store = [True, VAR_NAMES[vn]]
+                if p is not None:
+                    pos_id = p
+                try:
+                    if p is None:
+                        crf.krige(store=store)
+                    else:
+                        crf.krige(cv["poss"][p], store=store)
+                except ValueError:
+                    if pos_id is not None:
+                        raise
             elif k == "set_pos":
                 crf.set_pos(cv["poss"][op["pos"]])
+                pos_id = op["pos"]
+            elif k == "krige_set_pos":
+                crf.krige.set_pos(cv["poss"][op["pos"]])
                 pos_id = op["pos"]
             elif k == "set_condition":
                 if "cond" in op:
@@ -88,7 +216,7 @@ def run_real(cv, ops, c0, m0, mu0):
                     crf.krige.set_condition()
             elif k == "model":
                 model_id = op["v"]
-                crf.model.len_scale = cv["lens"][model_id]
+                set_model(crf.model, cv, model_id)
             elif k == "mean":
                 mean_id = op["v"]
                 if cv["variant"] == "Simple":
@@ -97,19 +225,64 @@ def run_real(cv, ops, c0, m0, mu0):
                     crf.trend = cv["means"][mean_id]
             elif k == "delete":
                 crf.delete_fields()
+            elif k == "krige_delete":
+                crf.krige.delete_fields()
+    return out
+
+
+def _c(**kw):
+    return dict({"k": "call"}, **kw)
+
+
+# directed histories, replayed first on every run (correspondence and search).  All respect the documented protocol
+# (every model / mean change is followed by the refresh), so every call must equal a freshly built object.
+DIRECTED = [
+    # the classic ones (D6): new conditioning values / model change + refresh / mean change + refresh, positions unchanged
+    ("new-values", [_c(pos=0), {"k": "set_condition", "cond": 1}, _c()]),
+    ("model-refresh", [_c(pos=0), {"k": "model", "v": 1}, {"k": "set_condition"}, _c()]),
+    ("mean-refresh", [_c(pos=0), {"k": "mean", "v": 1}, {"k": "set_condition"}, _c()]),
+    ("model-refresh-with-values", [_c(pos=0), {"k": "model", "v": 1}, {"k": "set_condition", "cond": 1}, _c(pos=1)]),
+    # history 1: the store=False call re-stores krige_var but not raw_krige
+    ("h1-nostore", [_c(pos=0), {"k": "set_condition", "cond": 1}, _c(store=False), _c()]),
+    # history 2: a direct kriging call re-stores krige_var
+    ("h2-krige-call", [_c(pos=0), {"k": "set_condition", "cond": 1}, {"k": "krige_call", "pos": 0}, _c()]),
+    ("h2-krige-call-nopos", [_c(pos=0), {"k": "model", "v": 2}, {"k": "set_condition"}, {"k": "krige_call"}, _c()]),
+    # a direct kriging call at other positions (same / different point count) moves the shared positions
+    ("krige-other-pos-same-count", [_c(pos=0), {"k": "krige_call", "pos": 1}, _c()]),
+    ("krige-other-pos", [_c(pos=0), {"k": "krige_call", "pos": 2}, _c()]),
+    ("krige-set-pos", [_c(pos=0), {"k": "krige_set_pos", "pos": 1}, _c(store=False), _c()]),
+    # custom names: run 2 stores its raw kriging field under another name, its variance under the default name
+    ("names-raw", [_c(pos=0), {"k": "set_condition", "cond": 1}, _c(rn=1), _c()]),
+    ("h1-list-form", [_c(pos=0), {"k": "set_condition", "cond": 2}, _c(sx=[True, True], store=False), _c()]),
+    ("names-var", [_c(pos=0, vn=1), {"k": "set_condition", "cond": 1}, _c(), {"k": "krige_call", "vn": 1}, _c(vn=1)]),
+    # harmless reuse must survive: nothing changed, deletions on either object
+    ("reuse", [_c(pos=0), _c(), _c(pos=0), {"k": "krige_delete"}, _c(store=False), _c(), {"k": "delete"}, _c(kstore=False), _c()]),
+]
+
+
+def directed_cases():
+    out = []
+    for i, (name, ops) in enumerate(DIRECTED):
+        for j, variant in enumerate(["Simple", "Ordinary"]):
+            cv = concrete(np.random.RandomState(9000 + 2 * i + j), dim=1 + (i + j) % 2, variant=variant)
+            out.append((name, cv, [dict(o) for o in ops], 0, 0, 0))
     return out
 
 
 def correspondence(ctx):
     rng = np.random.RandomState(ctx.seed + 707)
-    H = ctx.scale(40, 300)
+    H = ctx.scale(100, 400)
     L = ctx.scale(12, 60)
     cases, opsl = [], []
+    for name, cv, ops, c0, m0, mu0 in directed_cases():
+        cases.append((cv, ops, c0, m0, mu0))
     for h in range(H):
         cv = concrete(rng)
         ops = gen_history(rng, int(rng.randint(3, L + 1)))
         c0, m0, mu0 = int(rng.randint(0, 4)), int(rng.randint(0, 4)), int(rng.randint(0, 3))
         cases.append((cv, ops, c0, m0, mu0))
+    H = len(cases)
+    for cv, ops, c0, m0, mu0 in cases:
         opsl.append({"op": "cond_history", "cond": c0, "model": m0, "mean": mu0, "ops": ops})
     # the conditioning formula on Float
     fops = []
@@ -117,15 +290,22 @@ def correspondence(ctx):
         n = int(rng.randint(1, 8))
         var = float(rng.choice([0.5, 1.0, 2.0]))
         nug = float(rng.choice([0.0, 0.0, 0.25, 1.0]))
-        kv = np.abs(rng.randn(n)) * (var + nug) * rng.choice([0.0, 0.3, 1.0], size=n)
+        kv = np.abs(rng.randn(n)) * (var + nug) * rng.choice([0.0, 0.3, 1.0, 1.7], size=n)
         fops.append(dict(krige=rng.randn(n), kvar=kv, raw=rng.randn(n), noise=rng.randn(n), var=var, nugget=nug))
     for f in fops:
         opsl.append({"op": "cond_value", "krige": fbits(f["krige"]), "kvar": fbits(f["kvar"]), "raw": fbits(f["raw"]),
                      "noise": fbits(f["noise"]), "var": fbits([f["var"]])[0], "nugget": fbits([f["nugget"]])[0]})
     res = run_driver(opsl)
-    dis, distinct, dist = [], set(), {"calls": 0, "reused": 0, "stale_predicted": 0, "ValueError": 0}
+    dis, distinct = [], set()
+    dist = {"calls": 0, "reused": 0, "stale_predicted": 0, "ValueError": 0, "mixed_runs_predicted": 0, "ops": {}}
     for (cv, ops, c0, m0, mu0), r in zip(cases, res[:H]):
-        real = run_real(cv, ops, c0, m0, mu0)
+        for o in ops:
+            dist["ops"][kind(o)] = dist["ops"].get(kind(o), 0) + 1
+        try:
+            real = run_real(cv, ops, c0, m0, mu0)
+        except Exception as e:       # noqa
+            dis.append({"what": "history raised outside a CondSRF call: %s: %s" % (type(e).__name__, e), "ops": ops})
+            continue
         if isinstance(r, dict) and "error" in r:
             dis.append({"what": "driver error " + r["error"]})
             continue
@@ -140,6 +320,7 @@ def correspondence(ctx):
             else:
                 dist["reused"] += int(b["reused"])
                 dist["stale_predicted"] += int(not b["eq_fresh"])
+                dist["mixed_runs_predicted"] += int(not b["same_run"])
                 ok = a[0] == b["eq_fresh"]
                 if not ok and a[0] and not b["eq_fresh"]:
                     # the model predicts a (documented) stale reuse, the real output nevertheless equals the fresh object's: the
@@ -150,9 +331,9 @@ def correspondence(ctx):
             if not ok:
                 dis.append({"what": "CondSRF call: real output vs fresh object does not match the cache model's prediction",
                             "call_index": i, "real": a, "model": b, "ops": ops, "init": [c0, m0, mu0],
-                            "variant": cv["variant"], "cls": cv["cls"]})
+                            "variant": cv["variant"], "cls": cv["cls"], "dim": cv["dim"]})
                 break
-        distinct.add(tuple(o["k"] for o in ops))
+        distinct.add(tuple(kind(o) for o in ops))
     # formula: compare with the real get_scaling path (the generator's nugget noise is prescribed)
     import gstools as gs
     for f, r in zip(fops, res[H:]):
@@ -173,9 +354,12 @@ def correspondence(ctx):
                         "case": {k: (v.tolist() if hasattr(v, "tolist") else v) for k, v in f.items()},
                         "real": np.asarray(real).tolist(), "lean": lean.tolist()})
     return {"evaluations": dist["calls"] + len(fops), "distinct_nontrivial": len(distinct),
-            "rule": "random histories (calls with/without positions, set_pos, set_condition with new data / refresh, in-place model change, "
-                    "mean/trend re-assignment, delete_fields) on real CondSRF objects; per call: real output == output of a freshly built "
-                    "object  <=>  the cache model's token equals the fresh token; plus the conditioning formula vs get_scaling; "
+            "rule": "directed histories first (stale-reuse histories through store=False, direct kriging calls, custom names), then random "
+                    "histories (CondSRF calls with/without positions and every store / krige_store form incl. custom names, direct kriging "
+                    "calls at the same / other positions, set_pos on either object, set_condition with new data / refresh, in-place model "
+                    "change incl. anisotropy and rotation, mean/trend re-assignment, delete_fields on either object) on real CondSRF objects "
+                    "(Simple / Ordinary / Universal, dim 1-3); per call: real output == output of a freshly built object  <=>  the cache "
+                    "model's tokens (raw kriging field AND variance) equal the fresh token; plus the conditioning formula vs get_scaling; "
                     "distinct = distinct operation-kind sequences",
             "samples": [c[1] for c in cases[:3]], "disagreements": dis[:6], "distribution": dist}
 
@@ -186,40 +370,104 @@ def protocol_history(rng, length):
     for o in gen_history(rng, length):
         ops.append(o)
         if o["k"] in ("model", "mean"):
-            ops.append({"k": "set_condition"})
+            # both forms are the documented refresh: without arguments, or together with new conditioning values
+            ops.append({"k": "set_condition"} if rng.rand() < 0.5 else {"k": "set_condition", "cond": int(rng.randint(0, 4))})
     return ops
+
+
+def _fails(cv, ops, c0, m0, mu0):
+    try:
+        rr = run_real(cv, ops, c0, m0, mu0)
+    except Exception:       # noqa
+        return None
+    bad = [x for x in rr if x != "ValueError" and not x[0]]
+    return bad[0] if bad else None
+
+
+def _protocol_ok(ops):
+    """every model / mean change is followed by a refresh before the next CondSRF call"""
+    dirty = False
+    for o in ops:
+        if o["k"] in ("model", "mean"):
+            dirty = True
+        elif o["k"] == "set_condition":
+            dirty = False
+        elif o["k"] == "call" and dirty:
+            return False
+    return True
+
+
+def shrink(cv, ops, c0, m0, mu0):
+    """drop operations, then reset options to their defaults, while the failure persists (and the protocol is respected)"""
+    cur = [dict(o) for o in ops]
+    changed = True
+    while changed:
+        changed = False
+        for j in range(len(cur)):
+            cand = cur[:j] + cur[j + 1:]
+            if _protocol_ok(cand) and _fails(cv, cand, c0, m0, mu0):
+                cur, changed = cand, True
+                break
+        if changed:
+            continue
+        for j in range(len(cur)):
+            for f in ("sx", "kx", "store", "kstore", "rn", "vn"):
+                if f in cur[j]:
+                    o = dict(cur[j])
+                    del o[f]
+                    cand = cur[:j] + [o] + cur[j + 1:]
+                    if _fails(cv, cand, c0, m0, mu0):
+                        cur, changed = cand, True
+                        break
+            if changed:
+                break
+    return cur
 
 
 def history_search(ctx, n):
     """the property itself on the real object: each call of a protocol-respecting history equals a fresh object"""
     rng = np.random.RandomState(ctx.seed + 777)
-    viol, ev = [], 0
+    viol, ev, keys = [], 0, set()
+
+    def examine(cv, ops, c0, m0, mu0, origin):
+        nonlocal ev
+        try:
+            real = run_real(cv, ops, c0, m0, mu0)
+        except Exception as e:       # noqa
+            key = "condsrf:history-raised:" + "-".join(kind(o) for o in ops)
+            if key not in keys:
+                keys.add(key)
+                viol.append({"key": key, "what": "an operation other than a CondSRF call raised %s: %s" % (type(e).__name__, e),
+                             "case": {"history": ops, "init": [c0, m0, mu0], "origin": origin}})
+            return
+        ev += len(real)
+        for i, a in enumerate(real):
+            if a != "ValueError" and not a[0]:
+                cur = shrink(cv, ops, c0, m0, mu0)
+                b = _fails(cv, cur, c0, m0, mu0) or a
+                kinds = "-".join(kind(o) for o in cur)
+                key = "condsrf:stale-kriging:" + kinds
+                if key in keys:
+                    return
+                keys.add(key)
+                viol.append({"key": key, "what": "a call returns a field different from a freshly built object (stale kriging result reused)",
+                             "case": {"history": cur, "init": [c0, m0, mu0], "variant": cv["variant"], "class": cv["cls"], "dim": cv["dim"],
+                                      "max_abs_diff": b[1], "note": b[2] if len(b) > 2 else "", "origin": origin,
+                                      "cond_pos": cv["cp"].tolist(), "conds": [c.tolist() for c in cv["conds"]], "len_scales": cv["lens"],
+                                      "anis": cv["anis"], "angles": cv["angles"], "means": cv["means"],
+                                      "positions": [p.tolist() for p in cv["poss"]], "seed": SEED,
+                                      "raw_names": RAW_NAMES, "var_names": VAR_NAMES}})
+                return
+
+    for name, cv, ops, c0, m0, mu0 in directed_cases():
+        examine(cv, ops, c0, m0, mu0, "directed:" + name)
+    nd = len(viol)
     for h in range(n):
         cv = concrete(rng)
         ops = protocol_history(rng, int(rng.randint(3, 14)))
         c0, m0, mu0 = int(rng.randint(0, 4)), int(rng.randint(0, 4)), int(rng.randint(0, 3))
-        real = run_real(cv, ops, c0, m0, mu0)
-        ev += len(real)
-        for i, a in enumerate(real):
-            if a != "ValueError" and not a[0]:
-                # shrink: drop operations while the failure persists
-                cur = list(ops)
-                changed = True
-                while changed:
-                    changed = False
-                    for j in range(len(cur)):
-                        cand = cur[:j] + cur[j + 1:]
-                        rr = run_real(cv, cand, c0, m0, mu0)
-                        if any(x != "ValueError" and not x[0] for x in rr):
-                            cur, changed = cand, True
-                            break
-                kinds = "-".join(o["k"] for o in cur)
-                viol.append({"key": "condsrf:stale-kriging:" + kinds, "what": "a call returns a field different from a freshly built object (stale kriging result reused)",
-                             "case": {"history": cur, "init": [c0, m0, mu0], "variant": cv["variant"], "class": cv["cls"], "max_abs_diff": a[1],
-                                      "cond_pos": cv["cp"].tolist(), "conds": [c.tolist() for c in cv["conds"]], "len_scales": cv["lens"], "means": cv["means"],
-                                      "positions": [p.tolist() for p in cv["poss"]], "seed": SEED}})
-                break
-        if len(viol) >= 3:
+        examine(cv, ops, c0, m0, mu0, "random")
+        if len(viol) - nd >= 3:
             break
     return ev, viol
 
@@ -228,7 +476,14 @@ def search(ctx, deep=False):
     import gstools as gs
     rng = np.random.RandomState(ctx.seed + 77)
     N = ctx.scale(25, 200) * (3 if deep else 1)
-    ev, viol = history_search(ctx, ctx.scale(30, 300) * (3 if deep else 1))
+    ev, viol = history_search(ctx, ctx.scale(40, 400) * (3 if deep else 1))
+    seen = set()
+
+    def report(v):
+        if v["key"] not in seen:
+            seen.add(v["key"])
+            viol.append(v)
+
     with warnings.catch_warnings():
         warnings.simplefilter("ignore")
         for t in range(N):
@@ -240,15 +495,23 @@ def search(ctx, deep=False):
             cv = rng.randn(len(idx))
             cls = str(rng.choice(["Gaussian", "Exponential", "Spherical", "Matern"]))
             nug = float(rng.choice([0.0, 0.0, 0.1]))
-            model = getattr(gs, cls)(dim=dim, var=float(rng.choice([0.5, 2.0])), len_scale=float(rng.choice([1.0, 3.0])), nugget=nug)
+            kw = {}
+            if dim > 1 and rng.rand() < 0.5:       # anisotropic, rotated models
+                kw = dict(anis=[float(rng.choice([0.3, 0.6]))] * (dim - 1), angles=[float(rng.uniform(0, 1.5))] * (1 if dim == 2 else 3))
+            var = float(rng.choice([0.5, 2.0]))
+            mk = lambda: getattr(gs, cls)(dim=dim, var=var, len_scale=float(ls), nugget=nug, **kw)      # noqa
+            ls = rng.choice([1.0, 3.0])
+            model = mk()
             variant = str(rng.choice(["Simple", "Ordinary", "Universal"]))
             exact = nug > 0
-            if variant == "Simple":
-                kr = gs.krige.Simple(model, cp, cv, mean=0.5, exact=exact)
-            elif variant == "Ordinary":
-                kr = gs.krige.Ordinary(model, cp, cv, exact=exact)
-            else:
-                kr = gs.krige.Universal(model, cp, cv, drift_functions=0, exact=exact)
+
+            def mkkrige(m):
+                if variant == "Simple":
+                    return gs.krige.Simple(m, cp, cv, mean=0.5, exact=exact)
+                if variant == "Ordinary":
+                    return gs.krige.Ordinary(m, cp, cv, exact=exact)
+                return gs.krige.Universal(m, cp, cv, drift_functions=0, exact=exact)
+            kr = mkkrige(model)
             crf = gs.CondSRF(kr, mode_no=64)
             desc = dict(dim=dim, cond_pos=cp.tolist(), cond_val=cv.tolist(), model=repr(model), variant=variant)
             far = cp.max() + 200.0 * model.len_scale
@@ -258,18 +521,32 @@ def search(ctx, deep=False):
                 ev += 1
                 tol = 1e-6 * (1 + np.abs(cv).max())
                 if not np.allclose(f[: cp.shape[1]], cv, atol=tol):
-                    viol.append({"key": f"condsrf:data-not-honoured:{variant}", "what": "conditioned field differs from the data at a conditioning location",
-                                 "case": dict(desc, seed=int(seed)), "got": f[: cp.shape[1]].tolist()})
+                    report({"key": f"condsrf:data-not-honoured:{variant}", "what": "conditioned field differs from the data at a conditioning location",
+                            "case": dict(desc, seed=int(seed)), "got": f[: cp.shape[1]].tolist()})
                 raw, rk, kv = crf["raw_field"], crf["raw_krige"], crf.krige["krige_var"]
                 if nug == 0:
                     want = rk + np.sqrt(kv / model.var) * raw
                     got = crf(pos, seed=int(seed), post_process=False)
                     if not np.allclose(got, want, atol=1e-10):
-                        viol.append({"key": "condsrf:formula", "what": "conditioned field is not krige + sqrt(kvar/var)*raw", "case": dict(desc, seed=int(seed))})
+                        report({"key": "condsrf:formula", "what": "conditioned field is not krige + sqrt(kvar/var)*raw", "case": dict(desc, seed=int(seed))})
+                    # the same from an independent kriging solve (a second Krige object on a second model object) and a plain SRF of the
+                    # same seed: also beyond the sill (unbiased kriging far from the data: kvar > var) and for anisotropic models
+                    kfield, kvar2 = mkkrige(mk())(pos, return_var=True, post_process=False)
+                    raw2 = gs.SRF(mk(), seed=int(seed), mode_no=64)(pos)
+                    want2 = kfield + np.sqrt(kvar2 / var) * raw2
+                    ev += 1
+                    if not np.allclose(got, want2, atol=1e-9 * (1 + np.abs(want2).max())):
+                        report({"key": f"condsrf:formula-independent:{variant}",
+                                "what": "conditioned field is not krige + sqrt(kvar/var)*raw with krige, kvar from an independent kriging call and raw from an SRF of the same seed",
+                                "case": dict(desc, seed=int(seed)), "max_abs_diff": float(np.max(np.abs(got - want2))),
+                                "kvar_over_var_max": float(np.max(kvar2) / var)})
                     if variant == "Simple":
                         ev += 1
                         if not np.isclose(f[-1], 0.5 + raw[-1], atol=1e-8):
-                            viol.append({"key": "condsrf:far-field", "what": "far from the data the simple-kriging conditioned field is not mean + unconditional field",
-                                         "case": dict(desc, seed=int(seed)), "got": float(f[-1]), "want": float(0.5 + raw[-1])})
-    return {"evaluations": ev, "violations": viol[:6],
-            "summary": "real CondSRF: data honoured for several seeds and variants (incl. exact mode with nugget), formula from stored fields, far-field limit"}
+                            report({"key": "condsrf:far-field", "what": "far from the data the simple-kriging conditioned field is not mean + unconditional field",
+                                    "case": dict(desc, seed=int(seed)), "got": float(f[-1]), "want": float(0.5 + raw[-1])})
+    return {"evaluations": ev, "violations": viol[:10],
+            "summary": "real CondSRF: directed + random protocol-respecting histories (store / krige_store forms, custom names, direct kriging calls, "
+                       "set_pos / delete_fields on either object, anisotropy edits + refresh) vs freshly built objects; data honoured for several "
+                       "seeds and variants (incl. exact mode with nugget, anisotropic rotated models); formula from stored fields and from an "
+                       "independent kriging solve + SRF of the same seed (incl. kvar > var); far-field limit"}
